@@ -64,7 +64,11 @@ def install(c, log=None, label="select"):
         dt = num(owner.fields[f"_{name}_dt"])
         if not (z3.is_const(dt) and dt.decl().kind() == z3.Z3_OP_UNINTERPRETED):
             raise Unsupported("select-by-contract needs a symbolic step time")
-        tau = _div_dt(num(tol), dt)
+        try:
+            tau = _div_dt(num(tol), dt)
+        except Unsupported:
+            tz_ = num(tol)
+            tau = (tz_ if z3.is_real(tz_) else z3.ToReal(tz_)) / dt  # e.g. select's own default 1e-6: not the caller's tolerance
         if not isinstance(time, T):
             raise Unsupported("select-by-contract: scalar time (use the scalar contract)")
 
